@@ -60,7 +60,14 @@ func RunConcurrent(sc *Scenario) *RunResult {
 			}
 		}
 	}
-	s := &Sched{schedule: sc.Schedule, MaxSteps: 600*total + 400}
+	// progress bound: every handler of a chain yields a bounded number of times per request
+	// (enter, each script action, around Next, leave), rux a bounded number of times per dispatch
+	nh, na := 0, 0
+	countOps(sc.Program, &nh)
+	for _, s := range sc.Handlers {
+		na += len(s)
+	}
+	s := &Sched{schedule: sc.Schedule, MaxSteps: total*(600+16*nh+4*na) + 400}
 	faults := sc.CacheFaults
 	s.Between = func(step int) {
 		for _, f := range faults {
@@ -222,4 +229,11 @@ func (t *twinCache) Get(rq *Req) *ReqRec {
 	r := SoloTwin(t.sc, rq, t.bo)
 	t.m[k] = r
 	return r
+}
+
+func countOps(ops []RegOp, n *int) {
+	for i := range ops {
+		*n += len(ops[i].MW) + len(ops[i].LaterUse) + 1
+		countOps(ops[i].Body, n)
+	}
 }
